@@ -206,6 +206,10 @@ def file_case(case):
                          f"E={m[iy, ix]}, generated with {E_of(ix, iy)}")
         elif kind == "folder":
             expect = []
+            if case.get("root"):
+                # the data folder lies below a directory with a leading dot
+                d0, d = d, os.path.join(d, case["root"])
+                os.makedirs(d)
             for rel, spec in case["files"]:
                 p = os.path.join(d, rel)
                 os.makedirs(os.path.dirname(p), exist_ok=True)
@@ -219,6 +223,15 @@ def file_case(case):
             for pp in afmformats.find_data(d, modality="force-distance"):
                 expect += [(str(pp), g.enum) for g in IndentationGroup(pp)]
             _check_group(grp, expect, cb, viol)
+            if case.get("root"):
+                # ... and every single file of it
+                for pp in afmformats.find_data(d, modality="force-distance"):
+                    cb1 = []
+                    g1 = load_group(pp, callback=cb1.append)
+                    _check_group(g1, [(str(pp), g.enum)
+                                      for g in IndentationGroup(pp)], cb1,
+                                 viol)
+                d = d0
         elif kind == "meta":
             if case.get("csv"):
                 path = os.path.join(d, "w.csv")
@@ -367,6 +380,13 @@ def file_cases(tier):
     ]
     for f in folders:
         cases.append({"kind": "file", "sub": "folder", "files": f})
+    # hidden directories above, and inside, the data folder
+    cases.append({"kind": "file", "sub": "folder", "files": folders[1],
+                  "root": ".archive/session1"})
+    cases.append({"kind": "file", "sub": "folder", "files": folders[5],
+                  "root": ".cache"})
+    cases.append({"kind": "file", "sub": "folder", "files": [
+        ("x/.y/a.h5", (2, 1)), (".z/b.h5", (1, 1)), ("c.h5", (1, 2))]})
     for spring, tip in itertools.product((True, False), repeat=2):
         cases.append({"kind": "file", "sub": "meta", "spring": spring,
                       "tip": tip, "override": False})
